@@ -43,6 +43,9 @@ You have to disable enum or useUnderlyingTypeMethods to resolve the setting conf
 
 	if targetUnderlying {
 		innerTarget = xtype.TypeOf(target.NamedType.Underlying())
+		// the value returned next to an error must have the target type, not
+		// the underlying type of the variable holding the function result.
+		ctx.SetErrorTargetVar(xtype.ZeroValue(target.T))
 	}
 
 	stmt, id, err := gen.Build(ctx, sourceID, innerSource, innerTarget, errPath)
